@@ -641,9 +641,12 @@ pub fn ctors(out: &str) {
         }
     }
     // Ccy : ASCII strings of length 0..5 ; FXPair equal / distinct
-    for s in ["", "u", "us", "usd", "USD", "UsD", "usdx", "dollar", "u d", "123", "eu\u{e9}"] {
+    // (a code is stored lower-cased; for some characters lower-casing changes the byte length: KELVIN SIGN is 3 bytes and
+    //  lower-cases to the 1-byte "k", LATIN CAPITAL I WITH DOT ABOVE is 2 bytes and lower-cases to 3)
+    for s in ["", "u", "us", "usd", "USD", "UsD", "usdx", "dollar", "u d", "123", "eu\u{e9}", "\u{212A}", "\u{0130}x", "x\u{0130}", "\u{20AC}", "u\u{0130}"] {
         let res = guard(|| Ccy::try_new(s));
-        o.emit(&json!({"key": format!("ctor/Ccy/{}", s), "op":"ctor", "fn":"Ccy::try_new", "arg": s, "nbytes": s.len(),
+        o.emit(&json!({"key": format!("ctor/Ccy/{}", s.escape_unicode()), "op":"ctor", "fn":"Ccy::try_new", "arg": s.escape_unicode().to_string(), "nbytes": s.to_lowercase().len(),
+                       "stored_nbytes": match &res { Outcome::Ok(Ok(c)) => verif::ccy_name(c).len() as i64, _ => -1 },
                        "o": match &res { Outcome::Ok(Ok(_)) => "ok", Outcome::Ok(Err(_)) => "err", Outcome::Panic(_) => "panic" },
                        "name": match &res { Outcome::Ok(Ok(c)) => verif::ccy_name(c), _ => String::new() }}));
     }
